@@ -29,3 +29,36 @@ Definition vm_roundtrip (c : string * bytes * value) : bool :=
   end.
 Definition vm_failures (cs : list (string * bytes * value)) : list string :=
   map (fun c => fst (fst c)) (filter (fun c => negb (vm_roundtrip c)) cs).
+
+(* ---------- client histories: the whole event log, the final time and the (start, duration) of every call ---------- *)
+From Zvt Require Import Transport Sequence SeqLookup Client.
+
+Definition event_eqb (a b : event) : bool :=
+  match a, b with
+  | EOpen i t, EOpen j u => (i =? j) && (t =? u)
+  | ERefused t, ERefused u => t =? u
+  | EWrite i t x, EWrite j u y => (i =? j) && (t =? u) && CanonClass.list_eqb x y
+  | EDrop i t, EDrop j u => (i =? j) && (t =? u)
+  | _, _ => false
+  end.
+Fixpoint events_eqb (a b : list event) : bool :=
+  match a, b with
+  | [], [] => true
+  | x :: a', y :: b' => event_eqb x y && events_eqb a' b'
+  | _, _ => false
+  end.
+Fixpoint times_eqb (a b : list (N * N)) : bool :=
+  match a, b with
+  | [], [] => true
+  | (x1, x2) :: a', (y1, y2) :: b' => (x1 =? y1) && (x2 =? y2) && times_eqb a' b'
+  | _, _ => false
+  end.
+
+Definition vm_client (c : config * list op * list cscript * list event * N * list (N * N)) : bool :=
+  match c with
+  | (cfg, ops, scripts, elog, eT, etimes) =>
+      let '(_, rs, _, w) := run_history cfg ops scripts in
+      events_eqb (rev (w_log w)) elog && (w_now w =? eT) && times_eqb (map (fun r => (snd (fst r), snd r)) rs) etimes
+  end.
+Definition vm_client_failures (cs : list (config * list op * list cscript * list event * N * list (N * N))) : list N :=
+  map fst (filter (fun x => negb (vm_client (snd x))) (combine (map N.of_nat (seq 0 (length cs))) cs)).
